@@ -6,6 +6,394 @@ import Verif.Proofs.Refine.Tlru
 namespace Verif
 open Verif.Spec
 
+/-! ## list facts: a resident key list that is the ghost order restricted to the residents -/
+
+namespace OrdL
+
+/-- restricting the resident keys keeps them the ghost order restricted to the residents -/
+theorem filter {g K : List Key} (h : K = g.filter (fun x => decide (x ∈ K))) (p : Key → Bool) :
+    K.filter p = g.filter (fun x => decide (x ∈ K.filter p)) := by
+  have e : (fun x => decide (x ∈ K.filter p)) = (fun x => p x && decide (x ∈ K)) := by
+    funext x
+    by_cases h1 : x ∈ K <;> by_cases h2 : p x = true <;> simp [List.mem_filter, h1, h2]
+  rw [e, ← List.filter_filter, ← h]
+
+theorem drop {g K : List Key} (h : K = g.filter (fun x => decide (x ∈ K))) (k : Key) :
+    dropKey K k = (dropKey g k).filter (fun x => decide (x ∈ dropKey K k)) := by
+  have h1 := filter h (fun x => !decide (x = k))
+  show K.filter _ = (g.filter _).filter _
+  rw [List.filter_filter]
+  refine h1.trans (List.filter_congr ?_)
+  intro x _
+  show decide (x ∈ dropKey K k) = (decide (x ∈ dropKey K k) && !decide (x = k))
+  by_cases hx : x = k
+  · subst hx; simp [dropKey]
+  · simp [hx]
+
+theorem touch {g K : List Key} (h : K = g.filter (fun x => decide (x ∈ K))) (k : Key) :
+    dropKey K k ++ [k] =
+      (dropKey g k ++ [k]).filter (fun x => decide (x ∈ dropKey K k ++ [k])) := by
+  rw [List.filter_append]
+  have e1 : [k].filter (fun x => decide (x ∈ dropKey K k ++ [k])) = [k] := by simp
+  have e2 : (dropKey g k).filter (fun x => decide (x ∈ dropKey K k ++ [k])) =
+      (dropKey g k).filter (fun x => decide (x ∈ dropKey K k)) := by
+    apply List.filter_congr
+    intro x hx
+    have hne : x ≠ k := by
+      have := (List.mem_filter.mp hx).2
+      simpa using this
+    simp [hne]
+  rw [e1, e2, ← drop h k]
+
+theorem filter_tt (K : List Key) : K.filter (fun _ => true) = K :=
+  List.filter_eq_self.mpr (fun _ _ => rfl)
+
+theorem dropKey_of_not_mem {K : List Key} {k : Key} (h : k ∉ K) : dropKey K k = K := by
+  unfold dropKey
+  rw [List.filter_eq_self]
+  intro a ha
+  have : a ≠ k := fun e => h (e ▸ ha)
+  simp [this]
+
+end OrdL
+
+theorem CStep.ins_inv {σ : Type} {c : Core σ} {s s' : σ} {now : Time} {k : Key} {v : Val}
+    {al : Allow} {d : Time} {ok : Bool} (h : CStep c s now (.ins k v al d ok) s') :
+    ∃ ttl, d = c.dlOf s now ttl ∧ ok = (c.insert1 s now k v al ttl).2 ∧
+      s' = (c.insert1 s now k v al ttl).1 := by
+  generalize hx : Atom.ins k v al d ok = x at h
+  cases h <;> cases hx
+  exact ⟨_, rfl, rfl, rfl⟩
+
+namespace Tlru
+
+theorem getE_of_mem_nodup {l : List Entry} (hn : (keys l).Nodup) {e : Entry} (he : e ∈ l) :
+    getE l e.key = some e := by
+  induction l with
+  | nil => cases he
+  | cons a t ih =>
+    simp only [keys, List.map_cons, List.nodup_cons] at hn
+    rw [getE_cons]
+    rcases List.mem_cons.mp he with rfl | het
+    · simp
+    · have hne : ¬ a.key = e.key := by
+        intro hh
+        exact hn.1 (hh ▸ List.mem_map_of_mem (f := (·.key)) het)
+      rw [if_neg hne]
+      exact ih hn.2 het
+
+/-- some resident entry has expired ⇒ `prune` removes an expired one -/
+theorem prune_expired {cap : Nat} {s : TlruState} (h : Inv cap s) {now : Time}
+    (hexp : ∃ e ∈ s.ents, e.dl ≤ now) :
+    ∃ w e, getE s.ents w = some e ∧ e.dl ≤ now ∧ prune s now = removeKey s w := by
+  obtain ⟨e, he, hd⟩ := hexp
+  have hg := getE_of_mem_nodup h.nodup he
+  have hm : (e.dl, e.key) ∈ s.tq := (h.tq_iff e.dl e.key).mpr ⟨e, hg, rfl⟩
+  have hs := h.sorted
+  have hti := h.tq_iff
+  unfold prune
+  cases htq : s.tq with
+  | nil => rw [htq] at hm; cases hm
+  | cons x rest =>
+    obtain ⟨d0, k0⟩ := x
+    rw [htq] at hm hs
+    rw [List.pairwise_cons] at hs
+    have hd0 : d0 ≤ now := by
+      rcases List.mem_cons.mp hm with heq | hm'
+      · have : e.dl = d0 := (Prod.mk.inj heq).1
+        exact this ▸ hd
+      · exact Nat.le_trans (hs.1 _ hm') hd
+    obtain ⟨e0, hg0, hdl0⟩ := (hti d0 k0).mp (by rw [htq]; exact List.mem_cons_self ..)
+    simp only [hd0, if_true]
+    exact ⟨k0, e0, hg0, hdl0 ▸ hd0, rfl⟩
+
+/-- no resident entry has expired ⇒ `prune` removes the least recently used one -/
+theorem prune_live {cap : Nat} {s : TlruState} (h : Inv cap s) {now : Time} {e0 : Entry}
+    {t : List Entry} (hents : s.ents = e0 :: t) (hlive : ∀ e ∈ s.ents, now < e.dl) :
+    prune s now = removeKey s e0.key := by
+  have hne : s.ents ≠ [] := by rw [hents]; exact List.cons_ne_nil _ _
+  have htq := h.cons.tq_ne_nil hne
+  have hti := h.tq_iff
+  unfold prune
+  cases htq' : s.tq with
+  | nil => exact absurd htq' htq
+  | cons x rest =>
+    obtain ⟨d0, k0⟩ := x
+    obtain ⟨e, hg, hdl⟩ := (hti d0 k0).mp (by rw [htq']; exact List.mem_cons_self ..)
+    have hlt : now < d0 := hdl ▸ hlive e (getE_mem hg)
+    have hnd : ¬ d0 ≤ now := Nat.not_le.mpr hlt
+    simp only [hnd, if_false, hents]
+
+/-- the resident keys after `do_insert_update`, for an arbitrary deadline -/
+theorem insert1_keys {cap : Nat} {s : TlruState} (h : Inv cap s) (now : Time) (k : Key) (v : Val)
+    (a : Allow) (d : Time) :
+    ((insert1 s now k v a d).2 = false ∧ (insert1 s now k v a d).1 = s) ∨
+    ((insert1 s now k v a d).2 = true ∧ ∃ p : Key → Bool,
+      keys (insert1 s now k v a d).1.ents = dropKey ((keys s.ents).filter p) k ++ [k]) := by
+  have hupd : ∀ e, getE s.ents k = some e →
+      keys (update s e v d).ents = dropKey ((keys s.ents).filter (fun _ => true)) k ++ [k] := by
+    intro e hg
+    have hek := getE_key hg
+    rw [OrdL.filter_tt]
+    simp only [update, keys_append, keys_delE, hek]
+    simp [keys, dropKey]
+  cases hg : getE s.ents k with
+  | some e =>
+    simp only [insert1, hg]
+    by_cases hu : a.upd = true
+    · rw [if_pos hu]
+      exact Or.inr ⟨rfl, _, hupd e hg⟩
+    · rw [if_neg hu]
+      by_cases hi : a.ins = true
+      · rw [if_pos hi]
+        by_cases hd : e.dl ≤ now
+        · rw [if_pos hd]
+          exact Or.inr ⟨rfl, _, hupd e hg⟩
+        · rw [if_neg hd]
+          exact Or.inl ⟨rfl, rfl⟩
+      · rw [if_neg hi]
+        exact Or.inl ⟨rfl, rfl⟩
+  | none =>
+    have hk : k ∉ keys s.ents := getE_eq_none_iff.mp hg
+    simp only [insert1, hg]
+    by_cases hi : a.ins = true
+    · rw [if_pos hi]
+      refine Or.inr ⟨rfl, ?_⟩
+      by_cases hfull : s.ents.length ≥ s.cap
+      · have hne : s.ents ≠ [] := by
+          intro h0; rw [h0] at hfull; simp at hfull; have := h.cap_pos; have := h.cap_eq; omega
+        obtain ⟨w, ew, hw, hpr⟩ := prune_spec h hne now
+        refine ⟨fun x => !decide (x = w), ?_⟩
+        simp only [hfull, if_true, hpr, removeKey, keys_append, keys_delE]
+        rw [OrdL.dropKey_of_not_mem (fun hm => hk (List.mem_filter.mp hm).1)]
+        simp [keys]
+      · refine ⟨fun _ => true, ?_⟩
+        simp only [hfull, if_false, keys_append]
+        rw [OrdL.filter_tt, OrdL.dropKey_of_not_mem hk]
+        simp [keys]
+    · rw [if_neg hi]
+      exact Or.inl ⟨rfl, rfl⟩
+
+theorem find1_keys (s : TlruState) (now : Time) (k : Key) (peek : Bool) :
+    ((find1 s now k peek).1 = s ∧ (peek = true ∨ (find1 s now k peek).2 = none)) ∨
+    ((∃ r, (find1 s now k peek).2 = some r) ∧ peek = false ∧
+      keys (find1 s now k peek).1.ents = dropKey (keys s.ents) k ++ [k]) ∨
+    ((find1 s now k peek).2 = none ∧
+      keys (find1 s now k peek).1.ents = (keys s.ents).filter (fun x => !decide (x = k))) := by
+  cases hg : getE s.ents k with
+  | none => simp only [find1, hg]; exact Or.inl ⟨trivial, Or.inr trivial⟩
+  | some e =>
+    have hek := getE_key hg
+    simp only [find1, hg]
+    by_cases hd : now < e.dl
+    · simp only [hd, if_true]
+      cases peek with
+      | true => exact Or.inl ⟨by simp, Or.inl rfl⟩
+      | false =>
+        refine Or.inr (Or.inl ⟨⟨_, rfl⟩, rfl, ?_⟩)
+        simp only [Bool.false_eq_true, if_false, keys_append, keys_delE]
+        simp [keys, dropKey, hek]
+    · simp only [hd, if_false]
+      exact Or.inr (Or.inr ⟨trivial, by simp only [removeKey, keys_delE]⟩)
+
+theorem foldl_removeKey_keys (ks : List Key) : ∀ s : TlruState,
+    ∃ p : Key → Bool, keys (ks.foldl removeKey s).ents = (keys s.ents).filter p := by
+  induction ks with
+  | nil => intro s; exact ⟨fun _ => true, (OrdL.filter_tt _).symm⟩
+  | cons k ks ih =>
+    intro s
+    obtain ⟨p, hp⟩ := ih (removeKey s k)
+    refine ⟨fun a => p a && !decide (a = k), ?_⟩
+    rw [List.foldl_cons, hp]
+    show (keys (delE s.ents k)).filter p = _
+    rw [keys_delE, List.filter_filter]
+
+/-- what the two cores share -/
+structure Like (c : Core TlruState) : Prop where
+  pre : ∀ s now, c.pre s now = s
+  ins : ∀ s now k v a ttl, c.insert1 s now k v a ttl = insert1 s now k v a (c.dlOf s now ttl)
+  find : ∀ s now k p, c.find1 s now k p = find1 s now k p
+  erase : ∀ s k, c.erase1 s k = erase1 s k
+  clean : ∀ s now, c.clean s now = clean s now
+  age : ∀ s now, (c.age s now).1 = s
+  ttl : ∀ s t, (c.updateTtl s t).ents = s.ents
+  clear : c.hasClear = true → ∀ s, (c.clear s).ents = []
+
+theorem like_tlru : Like core where
+  pre _ _ := rfl
+  ins _ _ _ _ _ _ := rfl
+  find _ _ _ _ := rfl
+  erase _ _ := rfl
+  clean _ _ := rfl
+  age _ _ := rfl
+  ttl _ _ := rfl
+  clear h := by simp [core] at h
+
+theorem like_utlru : Like Utlru.core where
+  pre _ _ := rfl
+  ins _ _ _ _ _ _ := rfl
+  find _ _ _ _ := rfl
+  erase _ _ := rfl
+  clean _ _ := rfl
+  age _ _ := rfl
+  ttl _ _ := rfl
+  clear _ _ := rfl
+
+/-- every atom keeps the resident list equal to the ghost use order restricted to the residents -/
+theorem ord_step {c : Core TlruState} (L : Like c) {cap : Nat} {g : List Key} {s s' : TlruState}
+    {now : Time} {x : Atom} (hi : Inv cap s)
+    (ho : keys s.ents = g.filter (fun y => decide (y ∈ keys s.ents)))
+    (hs : CStep c s now x s') :
+    keys s'.ents = (useStep g x).filter (fun y => decide (y ∈ keys s'.ents)) := by
+  cases hs with
+  | pre => rw [L.pre]; exact ho
+  | ins k v a ttl =>
+    rw [L.ins]
+    generalize c.dlOf s now ttl = d
+    rcases insert1_keys hi now k v a d with ⟨h1, h2⟩ | ⟨h1, p, h2⟩
+    · rw [h1, h2]; exact ho
+    · rw [h1, h2]
+      exact OrdL.touch (OrdL.filter ho p) k
+  | look k peek =>
+    rw [L.find]
+    rcases find1_keys s now k peek with ⟨h1, h2⟩ | ⟨⟨r, h1⟩, h2, h3⟩ | ⟨h1, h2⟩
+    · rw [h1]
+      rcases h2 with h2 | h2
+      · subst h2
+        cases (find1 s now k true).2 <;> exact ho
+      · rw [h2]; cases peek <;> exact ho
+    · subst h2
+      rw [h1, h3]
+      exact OrdL.touch ho k
+    · rw [h1, h2]
+      have := OrdL.filter ho (fun x => !decide (x = k))
+      cases peek <;> exact this
+  | del k =>
+    rw [L.erase]
+    cases hg : getE s.ents k with
+    | none => simp only [erase1, hg]; exact ho
+    | some e =>
+      simp only [erase1, hg, removeKey, keys_delE]
+      exact OrdL.drop ho k
+  | clear hc => rw [L.clear hc]; simp [keys]
+  | reap =>
+    rw [L.clean]
+    obtain ⟨p, hp⟩ := foldl_removeKey_keys (cleanLoop now s.tq) s
+    have := OrdL.filter ho p
+    rw [← hp] at this
+    exact this
+  | age => rw [L.age]; exact ho
+  | setTtl t => rw [L.ttl]; exact ho
+  | obsSize => exact ho
+  | obsEmpty => exact ho
+  | obsCap => exact ho
+
+theorem useOrder_snoc (p : STrace TlruState) (y : TlruState × Time × Atom) :
+    useOrder (p ++ [y]) = useStep (useOrder p) y.2.2 := by
+  simp [useOrder, List.foldl_append]
+
+/-- along every run: the refinement invariant, and the recency order is the ghost use order -/
+theorem run_inv {c : Core TlruState} (L : Like c) {cap : Nat}
+    (R : Refines c .lazy cap (fun _ => Inv cap) abs) {s0 s : TlruState} {tr : STrace TlruState}
+    (h0 : Inv cap s0) (he : s0.ents = []) (hr : CRun c s0 tr s) :
+    Inv cap s ∧ keys s.ents = (useOrder tr).filter (fun y => decide (y ∈ keys s.ents)) := by
+  have := CRun.invariant (c := c)
+    (P := fun p s => Inv cap s ∧ keys s.ents = (useOrder p).filter (fun y => decide (y ∈ keys s.ents)))
+    (pre := []) (by
+      intro p s now x s' hP hs
+      refine ⟨(R.cstep hP.1 hs).1, ?_⟩
+      rw [useOrder_snoc]
+      exact ord_step L hP.1 hP.2 hs)
+    ⟨h0, by simp [he, keys, useOrder]⟩ hr
+  simpa using this
+
+/-- a creating insert into a full cache: the entries afterwards -/
+theorem insert1_full {cap : Nat} {s : TlruState} (h : Inv cap s) {now : Time} {k : Key} {v : Val}
+    {a : Allow} {d : Time} (hnew : k ∉ keys s.ents) (hfull : cap ≤ s.ents.length)
+    (hok : (insert1 s now k v a d).2 = true) :
+    (insert1 s now k v a d).1.ents = (prune s now).ents ++ [{ key := k, val := v, dl := d }] := by
+  have hg : getE s.ents k = none := getE_eq_none_iff.mpr hnew
+  have hfull' : s.ents.length ≥ s.cap := by rw [h.cap_eq]; exact hfull
+  simp only [insert1, hg] at hok ⊢
+  by_cases hi : a.ins = true
+  · simp only [hi, if_true, hfull']
+  · simp [hi] at hok
+
+theorem evicts_of_remove {s : TlruState} {k w : Key} {e : Entry} {x : Entry} (hx : x.key = k)
+    (hnew : k ∉ keys s.ents) (hw : getE s.ents w = some e) :
+    Evicts (keys s.ents) (keys ((removeKey s w).ents ++ [x])) k w := by
+  have hwm : w ∈ keys s.ents := getE_isSome_iff.mp (by simp [hw])
+  have hwk : w ≠ k := fun hh => hnew (hh ▸ hwm)
+  refine ⟨hwm, hwk, ?_, ?_⟩
+  · rw [keys_append, List.mem_append]
+    rintro (hm | hm)
+    · exact (mem_keys_delE.mp hm).2 rfl
+    · simp [keys, hx] at hm; exact hwk hm
+  · intro u hu huw
+    rw [keys_append, List.mem_append]
+    exact Or.inl (mem_keys_delE.mpr ⟨hu, huw⟩)
+
+/-- C10, shared: any core that behaves like tlru -/
+theorem C10_like {c : Core TlruState} (L : Like c) {cap : Nat}
+    (R : Refines c .lazy cap (fun _ => Inv cap) abs) {s0 : TlruState} (h0 : Inv cap s0)
+    (he : s0.ents = []) {tr : STrace TlruState} {s s' : TlruState}
+    {now : Time} {k : Key} {v : Val} {al : Allow} {d : Time}
+    (hrun : CRun c s0 tr s)
+    (hstep : CStep c s now (.ins k v al d true) s')
+    (hnew : k ∉ keys s.ents) (hfull : cap ≤ s.ents.length)
+    (hlive : ∀ e ∈ s.ents, now < e.dl) :
+    ∃ w, firstIn (useOrder tr) (keys s.ents) = some w ∧ Evicts (keys s.ents) (keys s'.ents) k w := by
+  obtain ⟨hi, ho⟩ := run_inv L R h0 he hrun
+  obtain ⟨ttl, -, hok, hs'⟩ := CStep.ins_inv hstep
+  rw [L.ins] at hok hs'
+  obtain ⟨e0, t, hents⟩ : ∃ e0 t, s.ents = e0 :: t := by
+    cases h : s.ents with
+    | nil =>
+      rw [h] at hfull
+      have := hi.cap_pos
+      simp at hfull; omega
+    | cons e0 t => exact ⟨e0, t, rfl⟩
+  have hpr := prune_live hi hents hlive
+  have hg0 : getE s.ents e0.key = some e0 := by rw [hents]; simp [getE_cons]
+  refine ⟨e0.key, ?_, ?_⟩
+  · unfold firstIn
+    rw [← List.head?_filter, ← ho, hents]
+    rfl
+  · rw [hs', insert1_full hi hnew hfull hok.symm, hpr]
+    exact evicts_of_remove rfl hnew hg0
+
+/-- C16, shared -/
+theorem C16_like {c : Core TlruState} (L : Like c) {cap : Nat}
+    (R : Refines c .lazy cap (fun _ => Inv cap) abs) {s0 : TlruState} (h0 : Inv cap s0)
+    (he : s0.ents = []) {tr : STrace TlruState} {s s' : TlruState}
+    {now : Time} {k : Key} {v : Val} {al : Allow} {d : Time}
+    (hrun : CRun c s0 tr s)
+    (hstep : CStep c s now (.ins k v al d true) s')
+    (hnew : k ∉ keys s.ents) (hfull : cap ≤ s.ents.length)
+    (hexp : ∃ e ∈ s.ents, e.dl ≤ now) :
+    ∃ w e, getE s.ents w = some e ∧ e.dl ≤ now ∧ Evicts (keys s.ents) (keys s'.ents) k w ∧
+      ∀ u e', getE s.ents u = some e' → now < e'.dl → getE s'.ents u = some e' := by
+  obtain ⟨hi, -⟩ := run_inv L R h0 he hrun
+  obtain ⟨ttl, -, hok, hs'⟩ := CStep.ins_inv hstep
+  rw [L.ins] at hok hs'
+  obtain ⟨w, e, hw, hd, hpr⟩ := prune_expired hi hexp
+  refine ⟨w, e, hw, hd, ?_, ?_⟩
+  · rw [hs', insert1_full hi hnew hfull hok.symm, hpr]
+    exact evicts_of_remove rfl hnew hw
+  · intro u e' hu hlt
+    have huw : u ≠ w := by
+      rintro rfl
+      rw [hw] at hu
+      cases hu
+      exact Nat.not_le.mpr hlt hd
+    rw [hs', insert1_full hi hnew hfull hok.symm, hpr, getE_append_single]
+    show (getE (delE s.ents w) u).or _ = _
+    rw [getE_delE_ne _ huw, hu]
+    rfl
+
+end Tlru
+
+
 /-- **C10, tlru_cache**: no resident entry has expired ⇒ the victim is the least recently used one. -/
 theorem C10_tlru (cap : Nat) (hcap : 0 < cap) {tr : STrace TlruState} {s s' : TlruState}
     {now : Time} {k : Key} {v : Val} {al : Allow} {d : Time}
@@ -13,8 +401,8 @@ theorem C10_tlru (cap : Nat) (hcap : 0 < cap) {tr : STrace TlruState} {s s' : Tl
     (hstep : CStep Tlru.core s now (.ins k v al d true) s')
     (hnew : k ∉ keys s.ents) (hfull : cap ≤ s.ents.length)
     (hlive : ∀ e ∈ s.ents, now < e.dl) :
-    ∃ w, firstIn (useOrder tr) (keys s.ents) = some w ∧ Evicts (keys s.ents) (keys s'.ents) k w := by
-  sorry
+    ∃ w, firstIn (useOrder tr) (keys s.ents) = some w ∧ Evicts (keys s.ents) (keys s'.ents) k w :=
+  Tlru.C10_like Tlru.like_tlru (Tlru.refines cap) (Tlru.inv_init hcap) rfl hrun hstep hnew hfull hlive
 
 /-- **C10, utlru_cache.** -/
 theorem C10_utlru (cap : Nat) (hcap : 0 < cap) (ttlMs : Nat) {tr : STrace TlruState} {s s' : TlruState}
@@ -23,8 +411,8 @@ theorem C10_utlru (cap : Nat) (hcap : 0 < cap) (ttlMs : Nat) {tr : STrace TlruSt
     (hstep : CStep Utlru.core s now (.ins k v al d true) s')
     (hnew : k ∉ keys s.ents) (hfull : cap ≤ s.ents.length)
     (hlive : ∀ e ∈ s.ents, now < e.dl) :
-    ∃ w, firstIn (useOrder tr) (keys s.ents) = some w ∧ Evicts (keys s.ents) (keys s'.ents) k w := by
-  sorry
+    ∃ w, firstIn (useOrder tr) (keys s.ents) = some w ∧ Evicts (keys s.ents) (keys s'.ents) k w :=
+  Tlru.C10_like Tlru.like_utlru (Utlru.refines cap) (Utlru.inv_init hcap ttlMs) rfl hrun hstep hnew hfull hlive
 
 /-- **C16, tlru_cache**: some resident entry has expired ⇒ the entry removed is an expired one, and
 (by `Evicts`) every other resident entry, in particular every live one, is kept. -/
@@ -35,8 +423,8 @@ theorem C16_tlru (cap : Nat) (hcap : 0 < cap) {tr : STrace TlruState} {s s' : Tl
     (hnew : k ∉ keys s.ents) (hfull : cap ≤ s.ents.length)
     (hexp : ∃ e ∈ s.ents, e.dl ≤ now) :
     ∃ w e, getE s.ents w = some e ∧ e.dl ≤ now ∧ Evicts (keys s.ents) (keys s'.ents) k w ∧
-      ∀ u e', getE s.ents u = some e' → now < e'.dl → getE s'.ents u = some e' := by
-  sorry
+      ∀ u e', getE s.ents u = some e' → now < e'.dl → getE s'.ents u = some e' :=
+  Tlru.C16_like Tlru.like_tlru (Tlru.refines cap) (Tlru.inv_init hcap) rfl hrun hstep hnew hfull hexp
 
 /-- **C16, utlru_cache** (any sequence of `update_ttl` calls before). -/
 theorem C16_utlru (cap : Nat) (hcap : 0 < cap) (ttlMs : Nat) {tr : STrace TlruState} {s s' : TlruState}
@@ -46,7 +434,7 @@ theorem C16_utlru (cap : Nat) (hcap : 0 < cap) (ttlMs : Nat) {tr : STrace TlruSt
     (hnew : k ∉ keys s.ents) (hfull : cap ≤ s.ents.length)
     (hexp : ∃ e ∈ s.ents, e.dl ≤ now) :
     ∃ w e, getE s.ents w = some e ∧ e.dl ≤ now ∧ Evicts (keys s.ents) (keys s'.ents) k w ∧
-      ∀ u e', getE s.ents u = some e' → now < e'.dl → getE s'.ents u = some e' := by
-  sorry
+      ∀ u e', getE s.ents u = some e' → now < e'.dl → getE s'.ents u = some e' :=
+  Tlru.C16_like Tlru.like_utlru (Utlru.refines cap) (Utlru.inv_init hcap ttlMs) rfl hrun hstep hnew hfull hexp
 
 end Verif
